@@ -280,3 +280,22 @@ Definition touches (i : ident) (t : target) (e : event) : bool :=
   | Gc o => target_eqb t (PObj o)
   | _ => false
   end.
+
+(* Per object: "t is never registered under two ids at once".  The only way to get there is a forced
+   registration of t while t is registered under a different id.  (A forced WEAK registration of t under
+   the daemon's reserved id is counted as well: the daemon refuses to forget that id, so a collected
+   object would stay behind there; the harness does not generate it.) *)
+Definition aliases (t : target) (s : state) (e : event) : bool :=
+  match e with
+  | Register t' r true w =>
+      target_eqb t' t &&
+      (existsb (fun je => holds (snd je) t && negb (ident_eqb (fst je) (req_ident (ngen s) r))) (reg s)
+       || match r with RDaemon => w | _ => false end)
+  | _ => false
+  end.
+Fixpoint unaliased_from (t : target) (s : state) (h : list event) : bool :=
+  match h with
+  | [] => true
+  | e :: h' => negb (aliases t s e) && unaliased_from t (fst (step quirks_none s e)) h'
+  end.
+Definition unaliased (t : target) (h : list event) : bool := unaliased_from t init h.
